@@ -30,6 +30,13 @@ type HEvent struct {
 	Done  bool   `json:"done"`
 	Crash bool   `json:"crash,omitempty"`
 	Bufs  []BufJ `json:"bufs"`
+	// copies: answers the driver was sent / answers delivered when the command
+	// left its queue (-1: never) / completions reported (tracing.EndTask)
+	NReq  int `json:"nreq"`
+	After int `json:"after"`
+	Ends  int `json:"ends"`
+	// answers delivered when the driver panicked
+	CrashAt int `json:"crash_at"`
 }
 
 type HistCase struct {
@@ -70,9 +77,12 @@ func (h *histEnv) bufs() []BufJ {
 }
 
 func (h *histEnv) apply(e *HEvent) (crashed bool) {
+	delivered := 0
+	e.CrashAt = -1
 	defer func() {
 		if x := recover(); x != nil {
 			e.Crash = true
+			e.CrashAt = delivered
 			crashed = true
 			e.Bufs = []BufJ{}
 		}
@@ -118,6 +128,10 @@ func (h *histEnv) apply(e *HEvent) (crashed bool) {
 		} else {
 			d.EnqueueMemCopyH2D(q, driver.Ptr(e.Addr), make([]byte, e.N))
 		}
+		cmdID := q.Peek().GetID()
+		e.After = -1
+		defer func() { e.Ends = h.env.ends[cmdID] }()
+		// the driver runs out of work before the first answer is delivered
 		msgs := h.env.settle()
 		var flushes, copies []sim.Msg
 		for _, m := range msgs {
@@ -129,13 +143,21 @@ func (h *histEnv) apply(e *HEvent) (crashed bool) {
 			}
 		}
 		e.Flush = len(flushes) > 0
-		for _, m := range append(flushes, copies...) {
+		e.NReq = len(flushes) + len(copies)
+		if q.NumCommand() == 0 {
+			e.After = 0
+		}
+		for k, m := range append(flushes, copies...) {
 			rsp := sim.GeneralRspBuilder{}.WithSrc(m.Meta().Dst).WithDst(h.env.gpuPort.AsRemote()).
 				WithOriginalReq(m).Build()
 			if err := h.env.gpuPort.Deliver(rsp); err != nil {
 				panic("driver port full")
 			}
 			h.env.settle()
+			delivered = k + 1
+			if e.After < 0 && q.NumCommand() == 0 {
+				e.After = k + 1
+			}
 		}
 		e.Done = q.NumCommand() == 0
 	}
@@ -226,6 +248,29 @@ func genHist(rng *vh.Rng) HistCase {
 			e.N = 1 + uint64(rng.Intn(int(s.size-off)))
 			if rng.Intn(4) == 0 {
 				e.N = s.size - off
+			}
+			if rng.Intn(5) == 0 {
+				// a copy of zero bytes: strictly inside, at the start of, at the end
+				// of or outside the buffer (no copy request; flush requests or not)
+				e.N = 0
+				switch rng.Intn(5) {
+				case 0:
+					e.Addr = s.start
+				case 1:
+					e.Addr = s.start + s.size
+				case 2:
+					var top uint64
+					for _, x := range spans {
+						if x.start+x.size > top {
+							top = x.start + x.size
+						}
+					}
+					e.Addr = top + 1 + uint64(rng.Intn(3000))
+				default:
+					if s.size >= 2 {
+						e.Addr = s.start + 1 + uint64(rng.Intn(int(s.size-1)))
+					}
+				}
 			}
 		}
 		crashed := h.apply(&e)
